@@ -1110,5 +1110,26 @@ add("tree-08-skips-merging-empty-looking-sketches", ["C08"], "helpers",
 # ---------------------------------------------------------------------------
 from .mutants import seeded_mutants as _seeded_mutants
 CORPUS.extend(_seeded_mutants())
+def _fhtail_correct(src):
+    """The round-4 seeded change for C11 (tail bytes read in place through a helper) with the offset typed uint64 as it must be."""
+    import os as _os
+    from .mutants import apply_unified_diff
+    here = _os.path.dirname(_os.path.dirname(_os.path.abspath(__file__)))
+    cands = [d for d in sorted(_os.listdir(_os.path.join(here, "seeded"))) if d.startswith("C11d-")]
+    if not cands:
+        return None
+    with open(_os.path.join(here, "seeded", cands[0], "patch.diff")) as f:
+        out = apply_unified_diff(src, f.read())
+    if out is None:
+        return None
+    a = '@njit(uint64(types.Bytes(types.uint8, 1, "C"), uint8, uint8))\ndef _fhtail'
+    if a not in out["hashes"]:
+        return None
+    out["hashes"] = out["hashes"].replace(a, '@njit(uint64(types.Bytes(types.uint8, 1, "C"), uint64, uint8))\ndef _fhtail')
+    return out
+
+
+add("E-dfg-14-tail-read-in-place-through-helper-uint64-offset", ["C11"], "*", _fhtail_correct, None, kind="E",
+    note="the C11d seeded change with the helper's offset parameter typed uint64: behaviour preserving")
 from .mutants import refactor_variants as _refactor_variants
 CORPUS.extend(_refactor_variants())
